@@ -7,7 +7,7 @@ SCRATCH = None
 if '--scratch' in sys.argv:
     # run against a scratch copy of /repo (VERIF_REPO) instead of patching /repo itself: lets other work go on in /repo meanwhile
     sys.argv.remove('--scratch')
-    SCRATCH = '/tmp/seedrun-repo'
+    SCRATCH = os.environ.get('SEEDRUN_DIR', '/tmp/seedrun-repo')
 dirs = [os.path.abspath(x) for x in sys.argv[1:]] or sorted(glob.glob(os.path.join(VERIF, 'seeded', '*')))
 assert subprocess.run(['git', '-C', '/repo', 'status', '--porcelain'], capture_output=True, text=True).stdout.strip() == '', '/repo not clean'
 for d in dirs:
@@ -20,7 +20,7 @@ for d in dirs:
         ap = subprocess.run(['patch', '-p1', '-s', '-d', SCRATCH, '-i', os.path.join(d, 'patch.diff')], capture_output=True, text=True)
         if ap.returncode != 0:
             print(os.path.basename(d), 'PATCH DOES NOT APPLY', (ap.stdout + ap.stderr)[:200]); continue
-        env = dict(os.environ); env['VERIF_REPO'] = SCRATCH; env['VERIF_WORK_SUFFIX'] = '-seedrun'
+        env = dict(os.environ); env['VERIF_REPO'] = SCRATCH; env['VERIF_WORK_SUFFIX'] = os.environ.get('SEEDRUN_SUFFIX', '-seedrun')
         t0 = time.time()
         p = subprocess.run([os.path.join(VERIF, 'check'), prop, '--tier', 'quick', '--no-evidence'], capture_output=True, text=True, cwd=VERIF, env=env)
         viol = [l for l in p.stdout.split('\n') if l.startswith('VIOLATION')]
